@@ -35,7 +35,8 @@ inline int n = 0;
 inline long overflow = 0;
 inline std::atomic_flag lk = ATOMIC_FLAG_INIT;     // threads of the controlled-thread mode exit concurrently
 struct Guard { Guard() { while (lk.test_and_set(std::memory_order_acquire)) {} } ~Guard() { lk.clear(std::memory_order_release); } };
-inline void add(void* p) { if (!on) return; Guard g; if (n < (1 << 14)) live[n++] = p; else ++overflow; }
+inline thread_local bool skip = false;              // the schedule chooser's own bookkeeping (DFS stack) outlives an execution
+inline void add(void* p) { if (!on || skip) return; Guard g; if (n < (1 << 14)) live[n++] = p; else ++overflow; }
 inline void del(void* p) { Guard g; for (int i = n - 1; i >= 0; --i) if (live[i] == p) { live[i] = live[--n]; return; } }
 }  // namespace heapacct
 
